@@ -132,7 +132,7 @@ func (c *Ctx) ledgerSequence(i int, rng *rand.Rand) {
 	}
 	nops := 200 + rng.Intn(c.N(400, 1800))
 	if wide {
-		nops = 3 * nk
+		nops = 4 * nk
 		c.Count("wide-key-population-sequences", 1)
 	}
 	var trace []string
@@ -159,7 +159,16 @@ func (c *Ctx) ledgerSequence(i int, rng *rand.Rand) {
 			k = keys[rng.Intn(5)]
 		}
 		c.Eval(1)
-		switch r := rng.Intn(100); {
+		r := rng.Intn(100)
+		if wide && op < nk {
+			// population phase: every key is written once through the consensus overlay (commit every 2500 writes)
+			k = keys[op]
+			r = 0
+			if op%2500 == 2499 {
+				r = 85
+			}
+		}
+		switch {
 		case r < 14: // SetFinality
 			seq++
 			v := fmt.Sprintf("v%d", seq)
@@ -313,7 +322,7 @@ func (c *Ctx) ledgerSequence(i int, rng *rand.Rand) {
 				}
 			}
 		case r < 90: // Commit
-			if wide && rng.Intn(40) != 0 {
+			if wide && op >= nk && rng.Intn(40) != 0 {
 				continue
 			}
 			trace = append(trace, "Commit")
